@@ -39,7 +39,7 @@ def drop_scratch():
     sh("git -C /repo worktree prune")
 
 
-def do_import(wt, prop):
+def do_import(wt, prop, tag=""):
     mdir = os.path.join(wt, "mutants")
     scratch()
     env = {"PYTHONPATH": f"{SCRATCH}/src", "DJC_ROOT": SCRATCH}
@@ -50,7 +50,7 @@ def do_import(wt, prop):
             demo = os.path.join(d, "demo.py")
             if not (os.path.isfile(patch) and os.path.isfile(demo)):
                 continue
-            sid = f"{prop}-{k}"
+            sid = f"{prop}-{tag}{k}"
             res = {}
             sh("git checkout -q -- . && git clean -fdq src", cwd=SCRATCH)
             rc, out = sh(f"/venv/bin/python {demo}", cwd=SCRATCH, env=env, timeout=180)
@@ -125,7 +125,7 @@ def do_run(ids, all_checks=False):
 
 if __name__ == "__main__":
     if sys.argv[1] == "import":
-        do_import(sys.argv[2], sys.argv[3])
+        do_import(sys.argv[2], sys.argv[3], sys.argv[4] if len(sys.argv) > 4 else "")
     elif sys.argv[1] == "run":
         a = [x for x in sys.argv[2:] if not x.startswith("--")]
         do_run(a, "--all-checks" in sys.argv)
